@@ -15,6 +15,7 @@ from . import kernel, model, world
 
 PROP = "C15"
 EXPECTED_PROBES = ["distinguishing_reuse", "lazy_resumed_after_switch",
+                   "value_used_under_another_calendar",
                    "evicting_caches", "cache_hits", "client_changes",
                    "reissued_ops"]
 
@@ -33,6 +34,27 @@ DUMP_FORMATS = ["CCYY-MM-DD", "CCYY-DDD", "CCYY-Www-D", "CCYYMMDDThhmmssZ",
                 "%Y-%m-%d %j", "%F %X", "%s", "CCYY-MM"]
 TRUNCS = ["T06", "T-30", "---15", "-W-3", "-045", "--03", "T18:45",
           "---28T12"]
+
+# Values that are valid in every calendar and are SHARED by all clients of a
+# run: created by whichever client needs one first (under its calendar) and
+# then used by the others under theirs.  A value must not carry calendar
+# facts of its birth calendar into later computations.
+X_VALUES = [("tp", "2001-01-28T00:00:00Z"), ("tp", "2000-03-01T12:00:00+05:30"),
+            ("tp", "2001-060T00:00:00Z"), ("tp", "2003-W09-3T06:00:00Z"),
+            ("tp", "1999-12-28T23:59:59-11:00"),
+            # only recurrences whose whole state is what was written: a bounded
+            # or two-point recurrence stores an end point / interval computed
+            # under its birth calendar (observable as .end_point/.duration),
+            # a value no fresh single-mode process can hold -- the property
+            # gives no reference for it
+            ("rec", "R/2001-01-28T00Z/P1M"), ("rec", "R/P20D/2001-03-01T00Z"),
+            ("rec", "R/2000-02-28T12:00:00+01:00/P1Y"),
+            ("dur", "P1Y"), ("dur", "P1M"), ("dur", "P1Y2M3D")]
+X_ACTIONS = {"tp": ["reprs", "add:P1M", "add:P40D", "add:-P60D", "epoch",
+                    "sub:2000-01-01T00:00:00Z"],
+             "rec": ["list:6", "valid:2001-03-09T00:00:00Z",
+                     "after:2001-02-01T00:00:00Z", "str"],
+             "dur": ["secs", "cmp:P360D", "cmp:P365D"]}
 
 PUBLIC_HELPERS = {
     "get_is_leap_year", "get_days_in_year_range", "get_days_in_year",
@@ -114,7 +136,7 @@ OP_KINDS = ["diy", "dim", "wiy", "diyr", "leap", "cwds", "owds", "d1ad",
             "dump", "strptime", "dur_cmp", "dur_secs", "rec_list",
             "rec_valid", "rec_after", "rec_getitem", "rec_open", "rec_next",
             "hold", "held_add", "held_reprs", "dto_proc", "dto_diff", "cli",
-            "trunc_add", "consts", "props_epoch"]
+            "trunc_add", "consts", "props_epoch", "xuse", "xuse"]
 
 
 def gen_op(rng, kind, hot, handles):
@@ -270,6 +292,11 @@ def gen_op(rng, kind, hot, handles):
         return ["trunc_add", rng.choice(TRUNCS), p]
     if kind == "consts":
         return ["consts"]
+    if kind == "xuse":
+        xkind, text = rng.choice(X_VALUES)
+        action = rng.choice(X_ACTIONS[xkind])
+        return ["xuse", "x%d" % X_VALUES.index((xkind, text)), xkind, text,
+                action]
     raise ValueError(kind)
 
 
@@ -405,6 +432,9 @@ def directed_ops():
                 ["cli", ["R/%s/P1M" % p, "--max=4"]],
                 ["trunc_add", "---15", p], ["trunc_add", "-W-3", p],
                 ["trunc_add", "-045", p]]
+    for xi, (xkind, text) in enumerate(X_VALUES):
+        for action in X_ACTIONS[xkind]:
+            ops.append(["xuse", "x%d" % xi, xkind, text, action])
     ops += [["props_epoch", 86400 * 59], ["props_epoch", 951782400],
             ["from_epoch", 0], ["from_epoch", 86400 * 59],
             ["from_epoch", 951782400], ["from_epoch", -86400 * 400],
@@ -660,6 +690,8 @@ def do_op(sim, client, op):
                 return sim.client_cli(client, op[1])
             if kind == "trunc_add":
                 return canon(sh.tp_trunc.parse(op[1]) + sh.tp.parse(op[2]))
+            if kind == "xuse":
+                return sim.xuse(client, op)
             if kind == "consts":
                 cal = data.Calendar.default()
                 return [list(cal.DAYS_IN_MONTHS),
@@ -731,6 +763,7 @@ class Sim(object):
         self.states = set()
         self.perturbed_between = False
         self.shared = None
+        self.xpool = {}
         self.clients = [Client(i, sp)
                         for i, sp in enumerate(trace["clients"])]
 
@@ -749,6 +782,52 @@ class Sim(object):
                 model.BASE[self.model_mode] == model.BASE[client.sp]):
             return self.model_mode
         return client.sp
+
+    # ---- values shared across clients (and so across calendars)
+    def xuse(self, client, op):
+        _, handle, xkind, text, action = op
+        sh = self.shared
+        if handle not in self.xpool:
+            if xkind == "tp":
+                val = sh.tp.parse(text)
+            elif xkind == "rec":
+                val = sh.rp.parse(text)
+            else:
+                val = sh.dp.parse(text)
+            self.xpool[handle] = (val, model.BASE[self.effective_sp(client)])
+        val, born = self.xpool[handle]
+        if born != model.BASE[self.effective_sp(client)]:
+            self.count("probe.value_used_under_another_calendar")
+        verb, _, arg = action.partition(":")
+        if xkind == "tp":
+            if verb == "reprs":
+                return [canon(val.to_calendar_date()),
+                        canon(val.to_ordinal_date()),
+                        canon(val.to_week_date()), val.day_of_year,
+                        val.week_of_year, val.day_of_month]
+            if verb == "add":
+                return canon(val + sh.dp.parse(arg))
+            if verb == "epoch":
+                return val.seconds_since_unix_epoch
+            return canon(val - sh.tp.parse(arg))
+        if xkind == "rec":
+            if verb == "list":
+                out = []
+                for i, p in enumerate(val):
+                    if i >= int(arg):
+                        break
+                    out.append(canon(p))
+                return out
+            if verb == "valid":
+                return bounded_is_valid(val, sh.tp.parse(arg))
+            if verb == "after":
+                return canon(bounded_first_after(val, sh.tp.parse(arg)))
+            return str(val)
+        if verb == "secs":
+            return [canon(val.get_seconds()),
+                    canon(val.get_days_and_seconds())]
+        other = sh.dp.parse(arg)
+        return [val < other, val == other, val > other]
 
     # ---- switch paths
     def set_env_cal(self, value):
@@ -1061,6 +1140,15 @@ def run_singletons(trace, picks, alarm=None):
     return out
 
 
+def x_fields(op):
+    """Extra fields identifying a shared-value operation (known finding)."""
+    if op[0] != "xuse":
+        return {}
+    return {"x_kind": op[2], "x_text": op[3],
+            "x_derived_point_stored_at_construction": bool(
+                op[2] == "rec" and re.match(r"^R\d+/", op[3]))}
+
+
 def has_hang(transcript):
     return any(res == "HANG" for _, res in transcript)
 
@@ -1089,10 +1177,11 @@ def check_trace_full(trace, alarm=None):
                     return check_trace_full(
                         trace, alarm=6 * kernel.CALL_ALARM_S)
                 op = trace["steps"][sn]["op"]
-                violations.append({
+                violations.append(dict({
                     "class": "isolation", "opkind": op[0], "step": sn,
                     "client": cid, "spelling": trace["clients"][cid],
-                    "op": op, "got": g, "want_fresh_process": w})
+                    "op": op, "got": g, "want_fresh_process": w},
+                    **x_fields(op)))
                 break
     # oracle 1b -- the property's own words, operation by operation: the
     # result equals what a fresh process that only ever used the current mode
@@ -1115,11 +1204,12 @@ def check_trace_full(trace, alarm=None):
                         "skipped.single_hang", 0) + 1
                     continue
                 op = trace["steps"][sn]["op"]
-                violations.append({
+                violations.append(dict({
                     "class": "isolation_single", "opkind": op[0], "step": sn,
                     "client": cid, "spelling": trace["clients"][cid],
                     "op": op, "got": got,
-                    "want_fresh_process_this_op_alone": want})
+                    "want_fresh_process_this_op_alone": want},
+                    **x_fields(op)))
                 break
         counters["single_op_fresh_process_checks"] = len(singles)
     # probes measured over transcripts: same op issued under two calendars
